@@ -423,10 +423,14 @@ def analyzeWith (cfg : Cfg) (ws : Bytes) (ps : List Pkg) : Verdict :=
 def analyze := analyzeWith Cfg.current
 def analyzeOld := analyzeWith Cfg.old
 
-/-! ### command model: what runs when -/
+/-! ### command model: what runs when
 
-/-- the commands that go through `loading.MustLoadGraphForBuild`; `build`, `test` and `run` then call
-    `cmds.RunBuild` with the user's target patterns -/
+The stages of `grog build|test|run|check` in the order of `cmds/{build,test,run,check}.go`; everything that is not the
+analysis is an *outcome* handed in from outside (`Env`): the model says in which order the stages can stop a command,
+not when selection, the cache backend or the lock fail. Script mode of `grog run <file>` (a node is added to the graph
+after loading) is not modelled. -/
+
+/-- the commands that go through `loading.MustLoadGraphForBuild`; `build`, `test` and `run` then call `cmds.RunBuild` -/
 inductive Cmd | build | test | run | check
 deriving DecidableEq, Repr
 
@@ -438,21 +442,57 @@ structure Request where
   tags     : List Bytes
 deriving Repr
 
+/-- outcomes of the stages the analysis model does not describe -/
+structure Env where
+  /-- `grog run`: every requested label names a target with a binary output (`runTargetsByLabels`, between loading and `RunBuild`) -/
+  labelsOk  : Bool
+  /-- `SelectTargetsForBuild` returned no error -/
+  selectOk  : Bool
+  /-- number of selected targets -/
+  selected  : Nat
+  /-- `backends.GetCacheBackend` succeeded -/
+  cacheOk   : Bool
+  /-- the workspace lock was acquired (or skipped) -/
+  lockOk    : Bool
+  /-- `executor.Execute` and the result reporting found no failure -/
+  execOk    : Bool
+deriving Repr
+
 inductive Ev
-  | diagnostic (k : Kind)
+  | diagnostic (k : Kind)   -- an error line naming a graph defect
+  | fatal                   -- any other fatal message (label lookup, selection, nothing selected, cache, lock)
+  | execute                 -- `executor.Execute` is entered: commands may run
+  | runBinaries             -- `grog run`: the built binaries are started
   | exitFail
-  | execute      -- selection, then the executor is started (`build`, `test`, `run`)
   | exitOk
 deriving DecidableEq, Repr
 
-/-- `grog build|test|run|check`: analysis of the whole loaded graph first; on reject print and exit 1; on accept
-    `check` reports success, the others go on to selection and the executor. -/
-def runCmd (cfg : Cfg) (r : Request) (ws : Bytes) (ps : List Pkg) : List Ev :=
-  match analyzeWith cfg ws ps with
-  | .reject k => [.diagnostic k, .exitFail]
-  | .accept =>
-    match r.cmd with
-    | .check => [.exitOk]
-    | _ => [.execute, .exitOk]
+/-- what happens after the whole graph was accepted -/
+def afterAccept (r : Request) (env : Env) : List Ev :=
+  match r.cmd with
+  | .check => [.exitOk]
+  | c =>
+    if !env.selectOk then [.fatal, .exitFail]
+    else if env.selected = 0 then [.fatal, .exitFail]
+    else if !env.cacheOk then [.fatal, .exitFail]
+    else if !env.lockOk then [.fatal, .exitFail]
+    else if !env.execOk then [.execute, .exitFail]
+    else if c = .run then [.execute, .runBinaries, .exitOk]
+    else [.execute, .exitOk]
+
+/-- `grog build|test|run|check`: node map and `BuildGraph` while loading (first error is fatal); for `run` the label
+    lookup; `CheckTargetConstraints` on all nodes (every error is printed, then exit 1); then `afterAccept`. -/
+def runCmd (cfg : Cfg) (r : Request) (env : Env) (ws : Bytes) (ps : List Pkg) : List Ev :=
+  match buildNodeMap ps with
+  | none => [.diagnostic .duplicate, .exitFail]
+  | some ns =>
+    match buildGraph cfg ws ns with
+    | some k => [.diagnostic k, .exitFail]
+    | none =>
+      if r.cmd = .run && !env.labelsOk then [.fatal, .exitFail]
+      else
+        match constraintErrors cfg ws ns with
+        | [] => afterAccept r env
+        | ks => ks.map Ev.diagnostic ++ [.exitFail]
 
 end Grog.Analysis
